@@ -317,6 +317,26 @@ static Result execute(const Toks &t) {
             for (size_t i = 0; tr && i < P.nrows; ++i) for (size_t j = 0; j < P.ncols; ++j) if (!(DP[i][j] == DR[j][i])) tr = false;
             if (!tr) r.fail("R != transpose(P)");
             if (!crs_nodup(P)) r.fail("duplicate column in a row of P");
+            bool guard_hit = false;
+            if (crs_nodup(*Ac) && has_all_diag(A)) {
+                ac::pointwise_aggregates::params ap; ap.eps_strong = eps_l; ap.block_size = (unsigned)b;
+                ac::pointwise_aggregates ag(*Ac, ap, 0);
+                Q omega = Q(relax);
+                if (est) omega = omega * (Q(4.0/3) / gershgorin_scaled(A)); else omega = omega * Q(2.0/3);
+                std::vector<Q> dia;
+                Dense ref = sa_reference(A, ag.strong_connection, ag.id, ag.count, omega, &dia);
+                if (ref != DP) r.fail("P != (I - w D_F^-1 A_F) P_tent (dense recomputation)");
+                bool guard = false, rowsum = false;
+                bool sym = is_symmetric(A);
+                for (long i = 0; i < A.n; ++i) {
+                    bool hs = false; Q rs(0), ps(0);
+                    for (auto j = A.ptr[i]; j < A.ptr[i+1]; ++j) { rs += A.val[j]; if (ag.strong_connection[j]) hs = true; }
+                    for (auto j = P.ptr[i]; j < P.ptr[i+1]; ++j) ps += P.val[j];
+                    if (dia[i] == 0 && hs) guard = true;
+                    if (sym && b == 1 && hs && rs == 0 && !(dia[i] == 0)) { rowsum = true; if (!(ps == Q(1))) r.fail("symmetric A, zero row sum, strong neighbour, but row of P does not sum to 1"); }
+                }
+                if (guard) { r.tag("dia0_guard"); guard_hit = true; } if (rowsum) r.tag("rowsum_checked");
+            }
             // supporting run of the shipped instantiation (double) on the same integer-valued data: the strength tests are
             // exact in binary64 here, so P must have the same pattern, finite entries (the `dia == 0` guard is invisible
             // at Q because 1/0 := 0 there) and values equal up to rounding
@@ -324,6 +344,7 @@ static Result execute(const Toks &t) {
                 std::vector<double> vd(A.val.size()); bool small = true;
                 for (size_t k = 0; k < vd.size(); ++k) { vd[k] = A.val[k].v.get_d(); if (!(Q(vd[k]) == A.val[k]) || std::fabs(vd[k]) > 1e6) small = false; }
                 if (small && est) { Dense D0 = dense(A); for (long i = 0; i < A.n; ++i) if (D0[i][i] == 0) small = false; }   // 1/0 in the Gershgorin scaling: inf in IEEE, 0 at Q
+                if (small && !(guard_hit || A.n > 6 || std::hash<std::string>()(t[t.size()-1] + t[t.size()/2]) % 4 == 0)) small = false;   // keep the thorough tier affordable
                 if (small) {
                     CrsD Ad((size_t)A.n, (size_t)A.m, A.ptr, A.col, vd);
                     ac::smoothed_aggregation<BackendD>::params pd; pd.aggr.eps_strong = eps; pd.aggr.block_size = (unsigned)b;
@@ -347,25 +368,6 @@ static Result execute(const Toks &t) {
                         r.tag("double_checked");
                     } catch (const amgcl::error::empty_level &) { r.fail("double instantiation: empty_level but not at Q"); }
                 }
-            }
-            if (crs_nodup(*Ac) && has_all_diag(A)) {
-                ac::pointwise_aggregates::params ap; ap.eps_strong = eps_l; ap.block_size = (unsigned)b;
-                ac::pointwise_aggregates ag(*Ac, ap, 0);
-                Q omega = Q(relax);
-                if (est) omega = omega * (Q(4.0/3) / gershgorin_scaled(A)); else omega = omega * Q(2.0/3);
-                std::vector<Q> dia;
-                Dense ref = sa_reference(A, ag.strong_connection, ag.id, ag.count, omega, &dia);
-                if (ref != DP) r.fail("P != (I - w D_F^-1 A_F) P_tent (dense recomputation)");
-                bool guard = false, rowsum = false;
-                bool sym = is_symmetric(A);
-                for (long i = 0; i < A.n; ++i) {
-                    bool hs = false; Q rs(0), ps(0);
-                    for (auto j = A.ptr[i]; j < A.ptr[i+1]; ++j) { rs += A.val[j]; if (ag.strong_connection[j]) hs = true; }
-                    for (auto j = P.ptr[i]; j < P.ptr[i+1]; ++j) ps += P.val[j];
-                    if (dia[i] == 0 && hs) guard = true;
-                    if (sym && b == 1 && hs && rs == 0 && !(dia[i] == 0)) { rowsum = true; if (!(ps == Q(1))) r.fail("symmetric A, zero row sum, strong neighbour, but row of P does not sum to 1"); }
-                }
-                if (guard) r.tag("dia0_guard"); if (rowsum) r.tag("rowsum_checked");
             }
             r.nontrivial = A.n >= 2;
         } catch (const amgcl::error::empty_level &) { r.out = "empty_level"; r.tag("empty_level"); }
